@@ -33,6 +33,7 @@ c01["units"].append(unit("H01-str", "AppendEscape/Escape on every string of the 
 c01["units"].append(unit("H01-strlong", "strings of 8..26 letters with one (quick) or two arbitrary bytes at arbitrary positions: every residue of the 8-byte escapeIndex scan", "vfH_c01_strlong",
                          {"vfLen": {"quick": [8, 9, 16, 17], "thorough": [8, 9, 10, 15, 16, 17, 18, 24, 25]}, "vfFlags": {"all": [0, 1]}, "vfMode": {"quick": [1], "thorough": [1, 2]}}, ["done"], split={"all": 3}, concret=["github.com/segmentio/encoding/json.escapeIndex"]))
 c01["units"].append(unit("H01-int", "appendInt/appendUint on every 64-bit integer by induction on digit pairs (base n<100, step n>=100, sign)", "vfH_c01_int", {"vfMode": {"all": [0, 1, 2]}}, ["done"], timeout_ms=60000))
+c01["units"].append(unit("H01-intkeys", "maps with integer keys and two entries with arbitrary distinct keys (int8, int, uint8): members sorted by the decimal text of the keys, Marshal and Encoder.Encode", "vfH_c01_intkeys", {"vfMode": {"quick": [0, 2], "thorough": [0, 1, 2]}, "vfFlags": {"quick": [0], "thorough": [0, 1]}}, ["done"], split={"all": 4}, maxconc=128))
 c15 = {"property": "C15", "title": "json.Append is oblivious to the destination's length and capacity", "level": "model_checking", "assumptions": assume + ["prefix lengths {0,1,3} x spare capacities {0, n-1, n, n+1, 64} are swept on every path (n = encoded size, concrete per path); append growth is Go's (exact fit or doubling as modelled by the engine)"],
        "outside_claim": ["types outside the catalogue", "other prefix lengths / capacities"], "units": []}
 for i, n, ulen, ulen2 in shapes:
